@@ -71,6 +71,16 @@ func main() {
 			"distinct = (family, kind, context, mutation, flag set, reference verdict, script hash, witness length)")
 		calibrate(c)
 
+		c.Family("limits", c.N(6000, 150000), func(k *mon.Case) {
+			r := k.Rand
+			p, kind := limitPlan(r)
+			runPlan(k, p, "limits", kind, "none")
+		})
+
+		c.Family("findanddelete", c.N(3000, 60000), func(k *mon.Case) {
+			findAndDeleteCase(k)
+		})
+
 		c.Family("grammar", c.N(60000, 1500000), func(k *mon.Case) {
 			r := k.Rand
 			ctx := r.Intn(ctxCount)
@@ -103,6 +113,21 @@ func main() {
 					mutation = "noise-byte"
 				}
 				p.script = sc
+			}
+			if (p.ctx == ctxBare || p.ctx == ctxP2SH) && r.Chance(1, 6) {
+				// executable (not push-only) scriptSig: a small program in front of the pushes
+				sb := newBuilder(r, ctxBare)
+				for i := 1 + r.Intn(2); i > 0; i-- {
+					sb.neutral()
+				}
+				if r.Chance(1, 8) {
+					sb.op(rs.OP_1, rs.OP_IF) // conditional left open across the script boundary
+				}
+				pre := sb.b
+				p.post = append(p.post, func(s *spend) {
+					s.tx.In[s.idx].ScriptSig = append(append([]byte{}, pre...), s.tx.In[s.idx].ScriptSig...)
+				})
+				p.mut("executable-scriptsig")
 			}
 			for f, n := range b.feat {
 				c.Count("fragment."+f, int64(n))
@@ -140,16 +165,6 @@ func main() {
 				mutation = corrupt(r, p)
 			}
 			runPlan(k, p, "spend", kind, mutation)
-		})
-
-		c.Family("limits", c.N(6000, 150000), func(k *mon.Case) {
-			r := k.Rand
-			p, kind := limitPlan(r)
-			runPlan(k, p, "limits", kind, "none")
-		})
-
-		c.Family("findanddelete", c.N(3000, 60000), func(k *mon.Case) {
-			findAndDeleteCase(k)
 		})
 
 		// coverage the monitor must have reached, else the run is inconclusive
